@@ -47,6 +47,20 @@ NEEDS = {
     'C22-m2': 'a successful unification that adds no new binding',
     'C23-m1': 'an FD constraint still stored at reification whose operand variable was unified with another variable',
     'C23-m2': 'plusz in subtraction mode (first and third operands ground, second unbound) with a stored != on the second operand and no later unification before reification',
+    'C04-m1': 'a disequality whose pairs share a variable, posted before the equality that breaks the chain, then binding the variable to the spuriously excluded value',
+    'C04-m2': 'a variable (or two unified variables) that receives a sparse domain with holes first and then an interval inside its bounds containing a hole value',
+    'C07-m1': 'a silent diverger built from a recursive closure of the shape fresh + one call (endless chain of pure pauses) in any branch of a conde',
+    'C07-m2': 'a disjunction with a dfs { } branch containing a silently diverging goal',
+    'C09-m1': 'a dfs { } block containing a cond whose left stream is an endless fruitless branch, with answers wanted from elsewhere',
+    'C09-m2': 'a strictly stronger disequality added after a weaker stored one with at least one other constraint in the store (HashSet::drain left early)',
+    'C13-m1': 'match keyword form where a pattern variable has the same name as a variable in the matched term',
+    'C13-m2': 'matcha with two or more arms/alternatives that unify with the term',
+    'C14-m1': 'an improper-list literal directly in the tail position of another list literal with a non-list innermost tail',
+    'C14-m2': 'the literal false as a direct un-bracketed element of an operator body (conde { false, .. }, loop { false })',
+    'C15-m1': 'shadowing between the matched term and a pattern variable (match / matche / matcha / matchu)',
+    'C15-m2': 'one closure goal VALUE solved at least twice on one conjunction path whose body binds a fresh variable',
+    'C24-m1': 'distinct on a list of length >= 3 with a duplicate pair (i, j), i odd (0-based)',
+    'C24-m2': 'append whose second argument can unify with [] and more than the first answer consumed, or a first argument that is not a proper ground list',
     'own-C07-unfair-mplus': 'any disjunction whose first branch is infinite or silently diverging',
     'own-C09-order-dependent-run-constraints': 'two stored constraints whose relative iteration order in the HashSet differs between runs',
 }
